@@ -9,6 +9,110 @@ VERIF = Path(__file__).resolve().parent.parent
 
 # id -> (category, technique, level text, level note, design ref, engine)
 CHECKS = {
+    "C04": (
+        "exploration",
+        'property-based testing (Hypothesis) with a deterministic schedule explorer around the real scheduler: generated DAGs, embeddings of upstream tasks and event delivery orders; reference dependency model checked at every launch event',
+        "Generated DAGs (<= 5/7 jobs, ten ways of embedding an upstream task in the parameters) are submitted to the real scheduler whose helper threads and job processes are replaced by explicit events fired in a generated order; job.dependencies must cover the model's upstream set and, at each launch event, every upstream job must have exited successfully and be DONE.",
+        'Trusted: the harness substitutes around the scheduler (helper threads, fake job processes, watcher events, foreign schedulers following the token protocol; DESIGN 2.2) and its reference model of dependencies/exit codes/holdings; interleavings inside one loop callback and real kernel-level races are outside the engine.',
+        "DESIGN.md section 3, C04",
+        'engine',
+    ),
+    "C05": (
+        "exploration",
+        'property-based testing (Hypothesis) over engine histories with duplicates and second runs, plus exhaustive enumeration of the pause point of a first launch racing a second launch of the same job script',
+        "Engine part: duplicates at any position return the first submission's output and leave registry and counters unchanged; jobs with a success marker are never launched by a later experiment. Process part: the first of two launches of one real job script is stopped (SIGSTOP) at every line event in turn while the second runs; the body must run exactly once overall.",
+        'Trusted: the harness substitutes around the scheduler (helper threads, fake job processes, watcher events, foreign schedulers following the token protocol; DESIGN 2.2) and its reference model of dependencies/exit codes/holdings; interleavings inside one loop callback and real kernel-level races are outside the engine. The race part uses real processes and real file locks; its oracle only counts body executions in the log, so timing can only hide a violation.',
+        "DESIGN.md section 3, C05",
+        'engine',
+    ),
+    "C06": (
+        "exploration",
+        'property-based testing (Hypothesis) with a deterministic schedule explorer: history invariants (truthful, stable final states; wait() results; experiment exit) and quiescence-decided liveness',
+        'Generated workloads with tokens, exit codes, re-submissions, foreign token operations and a side thread in xp.wait(), under generated event delivery orders; final states must be truthful and stable at every idle point, wait() must return them, xp.wait() must return exactly when all jobs submitted before it are final; a hang is decided by quiescence, never by a timeout.',
+        'Trusted: the harness substitutes around the scheduler (helper threads, fake job processes, watcher events, foreign schedulers following the token protocol; DESIGN 2.2) and its reference model of dependencies/exit codes/holdings; interleavings inside one loop callback and real kernel-level races are outside the engine.',
+        "DESIGN.md section 3, C06",
+        'engine',
+    ),
+    "C07": (
+        "exploration",
+        'property-based testing (Hypothesis) with a deterministic schedule explorer against a reference model of transitive failure, including two-stage experiments',
+        'Generated DAGs with failing jobs, launch errors and pre-existing success markers, failures delivered before/while/after the dependents are submitted, and second-stage experiments consuming first-stage outputs; dependents of failures never launch and end ERROR, independent jobs launch exactly once, the experiment reports failure iff a job is in error.',
+        'Trusted: the harness substitutes around the scheduler (helper threads, fake job processes, watcher events, foreign schedulers following the token protocol; DESIGN 2.2) and its reference model of dependencies/exit codes/holdings; interleavings inside one loop callback and real kernel-level races are outside the engine. Jobs reached from a failure only through an already-succeeded job are not asserted on (the property allows both readings).',
+        "DESIGN.md section 3, C07",
+        'engine',
+    ),
+    "C08": (
+        "exploration",
+        'property-based testing (Hypothesis) with a deterministic schedule explorer: capacity invariant at every launch event and idle point, foreign schedulers (also slipping in between check and write when the inter-process lock is not held)',
+        'Generated token workloads (file-based and process-level, heterogeneous requests, several tokens per job) with foreign acquire/release operations on the same directory and late watcher events; at every launch and idle point own running jobs plus live foreign holders never exceed the total and the token files never sum above it.',
+        'Trusted: the harness substitutes around the scheduler (helper threads, fake job processes, watcher events, foreign schedulers following the token protocol; DESIGN 2.2) and its reference model of dependencies/exit codes/holdings; interleavings inside one loop callback and real kernel-level races are outside the engine.',
+        "DESIGN.md section 3, C08",
+        'engine',
+    ),
+    "C09": (
+        "exploration",
+        'property-based testing (Hypothesis) with a deterministic schedule explorer: quiescence invariants (capacity restored, no token file left, no runnable job left waiting)',
+        'Every way a job ends (success, failure, launch error, aborted start with a lock already taken, foreign holder reclaimed by the watcher thread, half-written foreign files) under generated delivery orders; at quiescence tokens show their full capacity, no token file of a finished job remains and no job that fits is left un-launched.',
+        'Trusted: the harness substitutes around the scheduler (helper threads, fake job processes, watcher events, foreign schedulers following the token protocol; DESIGN 2.2) and its reference model of dependencies/exit codes/holdings; interleavings inside one loop callback and real kernel-level races are outside the engine. Scheduler death while holding tokens needs the real-process part.',
+        "DESIGN.md section 3, C09",
+        'engine',
+    ),
+    "C10": (
+        "fault_enumeration",
+        'exhaustive fault injection: every line event of the task runner and task body x {SIGKILL, SIGTERM, SIGINT}, each followed by relaunches; directory-state predicates',
+        'A real job script runs under a tracer that kills it at the n-th line event; all n (about 128) and three signals are enumerated completely (quick: default body; thorough: four body shapes with re-faulted relaunches); markers, lock and relaunch behaviour are checked after each death.',
+        'Trusted: crash points are Python line events (not inside C code); the wrapper writes the .pid file as the scheduler would.',
+        "DESIGN.md section 3, C10",
+        'crash',
+    ),
+    "C12": (
+        "exploration",
+        'property-based testing (Hypothesis): round trip through four writers and two readers, graph isomorphism with sharing bijection, identifiers recomputed on the loaded graph',
+        'Generated graphs over all parameter kinds (ignored ones, DataPath files, meta flags, pre/init tasks, task outputs, cycles) are written as params.json / state_dict / save / serialize and loaded back as configurations (isomorphism + identifiers) or instances (values + tags).',
+        'Trusted: the isomorphism checker; DataPath values compared by content.',
+        "DESIGN.md section 3, C12",
+        'blueprints',
+    ),
+    "C13": (
+        "exploration",
+        'property-based testing (Hypothesis): simultaneous traversal of configuration graph and runtime objects (bijection), call-log invariants for __post_init__, pre-tasks, init tasks and task body',
+        'Generated graphs with sharing, cycles, shared pre-tasks and init tasks are turned into runtime objects by instance() and by running the generated params.json through experimaestro.run.run(); one object per configuration, wired identically; every initialisation hook exactly once and in order.',
+        "Trusted: the universe classes' call log; 'after its parameters are set' is checked on the object's own attributes.",
+        "DESIGN.md section 3, C13",
+        'blueprints',
+    ),
+    "C14": (
+        "exploration",
+        'property-based testing (Hypothesis): generated mutation histories on sealed graphs; every mutation rejected, stored state and identifiers unchanged',
+        'Graphs sealed by dry-run submissions or seal() (optionally after a failed sealing attempt) then receive generated assignment / set_meta / add_pretasks / add_pretasks_from attempts on nodes reachable from the sealed roots, interleaved with identifier requests.',
+        'Trusted: the reachability model of what a submission seals; values generated valid for the declared type so that a rejection can only come from sealing.',
+        "DESIGN.md section 3, C14",
+        'blueprints',
+    ),
+    "C15": (
+        "exploration",
+        'property-based testing (Hypothesis): generated type expressions x conforming/defective values against a reference conforms()/coerce(); task graphs with one required value removed submitted to a recording scheduler',
+        'Type expressions nested up to three constructors with values that conform or are wrong at one generated position: store-or-raise, conforming values accepted and read back coerced. Task graphs lacking a required value at sixteen kinds of position must be rejected by submit() before anything is registered.',
+        'Trusted: reference conforms()/coerce() from the documentation; Optional only at parameter level; bool accepts anything.',
+        "DESIGN.md section 3, C15",
+        'blueprints',
+    ),
+    "C17": (
+        "exploration",
+        'property-based testing (Hypothesis): containment, injectivity and reproducibility of generated paths over generated graphs, second build under order variants',
+        'Graphs with generated-path parameters at all positions are submitted (dry run) twice, the second time with other keyword / dict insertion / assignment orders; paths must lie inside the job directory, be pairwise distinct per job and identical between builds.',
+        'Trusted: the model of which submission seals which node; dict keys are plain names.',
+        "DESIGN.md section 3, C17",
+        'blueprints',
+    ),
+    "C19": (
+        "exploration",
+        'property-based testing (Hypothesis): generated filter expressions against a direct evaluator; generated workspace layouts with predicted tree after jobs clean / orphans --clean',
+        'Filters from the documented grammar over tags, @state, @name evaluated on generated jobs (both and/or readings accepted); workspaces with jobs in all marker combinations and experiments with index/backup index: the commands must remove exactly the predicted directories and leave everything else byte-identical.',
+        'Trusted: the reference evaluator and the layout materialiser; .done + live pid is not generated.',
+        "DESIGN.md section 3, C19",
+        None,
+    ),
     "C02": (
         "exploration",
         "property-based testing (Hypothesis): metamorphic relation 'signature-neutral edit => same identifier' over generated configuration graphs, edits applied as data, guarded by an independent reference signature",
